@@ -80,10 +80,71 @@ def sites(tree):
                         yield ('cont', i, (field, k), 'continue -> break')
                     elif isinstance(st, ast.Break):
                         yield ('cont', i, (field, k), 'break -> continue')
+        if isinstance(n, ast.Call) and norm_func(n) in ('Or', 'And', 'MatchFirst', 'pp.Or', 'pp.And') and n.args \
+                and isinstance(n.args[0], ast.List) and len(n.args[0].elts) >= 2:
+            for k in range(len(n.args[0].elts)):
+                yield ('listdrop', i, k, 'drop element %d of %s([...])' % (k, norm_func(n)))
+            for k in range(len(n.args[0].elts) - 1):
+                yield ('listswap', i, k, 'swap elements %d,%d of %s([...])' % (k, k + 1, norm_func(n)))
+        if isinstance(n, ast.Call) and norm_func(n) in ('re.compile', 'Regex', 'pp.Regex') and n.args \
+                and isinstance(n.args[0], ast.Constant) and isinstance(n.args[0].value, str):
+            for k, (desc, _) in enumerate(regex_mutants(n.args[0].value)):
+                yield ('regex', i, k, 'regex %s' % desc)
+        if isinstance(n, ast.Return) and n.value is not None and not isinstance(n.value, ast.Constant):
+            yield ('retnone', i, 0, 'return None instead of `%s`' % ast.unparse(n.value)[:40])
+        if isinstance(n, ast.Call) and len(n.args) == 2 and not n.keywords and not any(isinstance(a, ast.Starred) for a in n.args) \
+                and ast.unparse(n.args[0]) != ast.unparse(n.args[1]):
+            yield ('argswap', i, 0, 'swap arguments of %s' % norm_func(n)[:30])
         if isinstance(n, ast.Call) and n.keywords:
             for k, kw in enumerate(n.keywords):
                 if kw.arg in ('version', 'replace', 'after', 'index', 'pos_key', 'maxsplit', 'parseAll', 'grid', 'has_value'):
                     yield ('dropkw', i, k, 'drop keyword %s=' % kw.arg)
+
+
+def norm_func(n):
+    try:
+        return ast.unparse(n.func)
+    except Exception:
+        return ''
+
+
+def regex_mutants(pat):
+    """small textual edits of a regex source that keep it compilable (checked by the caller)"""
+    import re as _re
+    out = []
+    for m_ in _re.finditer(r'(?<!\\\\)[+*?]', pat):
+        ch = m_.group(0)
+        i = m_.start()
+        if ch == '+':
+            out.append(('`+`->`*` at %d' % i, pat[:i] + '*' + pat[i + 1:]))
+        elif ch == '*':
+            out.append(('`*`->`+` at %d' % i, pat[:i] + '+' + pat[i + 1:]))
+        elif ch == '?' and i > 0 and pat[i - 1] not in '(':
+            out.append(('drop `?` at %d' % i, pat[:i] + pat[i + 1:]))
+    for m_ in _re.finditer(r'\\\\d', pat):
+        out.append(('\\d->\\w at %d' % m_.start(), pat[:m_.start()] + '\\w' + pat[m_.end():]))
+    for m_ in _re.finditer(r'\{(\d+)\}', pat):
+        k = int(m_.group(1))
+        out.append(('{%d}->{%d} at %d' % (k, k + 1, m_.start()), pat[:m_.start()] + '{%d}' % (k + 1) + pat[m_.end():]))
+        if k > 1:
+            out.append(('{%d}->{%d} at %d' % (k, k - 1, m_.start()), pat[:m_.start()] + '{%d}' % (k - 1) + pat[m_.end():]))
+    for m_ in _re.finditer(r'\[([^\]\\\\]{2,})\]', pat):
+        body = m_.group(1)
+        if '-' in body[1:-1] or body.startswith('^'):
+            continue
+        out.append(('drop first char of class at %d' % m_.start(), pat[:m_.start() + 1] + body[1:] + pat[m_.end() - 1:]))
+    if pat.startswith('^'):
+        out.append(('drop leading ^', pat[1:]))
+    if pat.endswith('$'):
+        out.append(('drop trailing $', pat[:-1]))
+    good = []
+    for d, p_ in out:
+        try:
+            _re.compile(p_)
+            good.append((d, p_))
+        except Exception:
+            pass
+    return good
 
 
 def apply(tree, site):
@@ -112,6 +173,17 @@ def apply(tree, site):
         b[idx] = ast.Break() if isinstance(b[idx], ast.Continue) else ast.Continue()
     elif kind == 'dropkw':
         del n.keywords[k]
+    elif kind == 'listdrop':
+        del n.args[0].elts[k]
+    elif kind == 'listswap':
+        e = n.args[0].elts
+        e[k], e[k + 1] = e[k + 1], e[k]
+    elif kind == 'regex':
+        n.args[0].value = regex_mutants(n.args[0].value)[k][1]
+    elif kind == 'retnone':
+        n.value = ast.Constant(value=None)
+    elif kind == 'argswap':
+        n.args[0], n.args[1] = n.args[1], n.args[0]
     ast.fix_missing_locations(t)
     return ast.unparse(t)
 
@@ -184,6 +256,7 @@ def main(argv):
     out = argv[argv.index('--out') + 1] if '--out' in argv else '/tmp/mutscreen'
     limit = int(argv[argv.index('--limit') + 1]) if '--limit' in argv else None
     mods = argv[argv.index('--modules') + 1].split(',') if '--modules' in argv else None
+    ops = set(argv[argv.index('--ops') + 1].split(',')) if '--ops' in argv else None
     os.makedirs(out, exist_ok=True)
     jobs = []
     for f in sorted(os.listdir(os.path.join(REPO, 'hszinc'))):
@@ -196,6 +269,8 @@ def main(argv):
         tree = ast.parse(text)
         nodes = list(ast.walk(tree))
         for site in sites(tree):
+            if ops and site[0] not in ops:
+                continue
             try:
                 src = apply(tree, site)
             except Exception:
